@@ -1,5 +1,6 @@
 import JSight.Basic
 import JSight.Model.Build
+import JSight.Model.PathBind
 /-!
 Line-protocol driver of the catalog-construction model (`Model/Build.lean`).
 
@@ -103,8 +104,42 @@ def showCat (c : Cat) : String :=
     "tags=" ++ sep ";" (c.tags.map showTag),
     "inters=" ++ sep ";" (c.inters.map showInter)]
 
+def parsePair (x : String) : Option (Bytes × Bytes) :=
+  match x.splitOn ":" with
+  | [a, b] => do
+    let a ← hx a
+    let b ← hx b
+    pure (a, b)
+  | _ => none
+
+def parsePairs (s : String) : Option (List (Bytes × Bytes)) :=
+  if s.isEmpty then some [] else (s.splitOn ",").mapM parsePair
+
+/-- "P<id>;<prefix hex>:<name hex>,…;<prop hex>,…" -/
+def parsePV (s : String) : Option PathBind.RawPV :=
+  match s.splitOn ";" with
+  | [id, params, props] => do
+    let id ← id.toNat?
+    let params ← parsePairs params
+    let props ← parseUnnamed props
+    pure { id := id, params := params, props := props }
+  | _ => none
+
+def handleBind (toks : List String) : String :=
+  let pvs := (toks.filter (·.startsWith "P")).mapM fun t => parsePV (t.drop 1).toString
+  let paths := (toks.filter (·.startsWith "Q")).mapM fun t => hx (t.drop 1).toString
+  match pvs, paths with
+  | some pvs, some paths =>
+    match PathBind.bindAll pvs [] with
+    | .error (.alreadyDefined id n) => "err already " ++ toString id ++ " " ++ h n
+    | .error (.unused id ns) => "err unused " ++ toString id ++ " " ++ sep "," (ns.map h)
+    | .ok m => "ok " ++ sep ";" (paths.map fun p =>
+        h p ++ "=" ++ sep "+" ((PathBind.variablesOf m p).map fun (n, id) => h n ++ "@" ++ toString id))
+  | _, _ => "bad-op"
+
 def handle (line : String) : String :=
   match (line.splitOn " ").filter (· ≠ "") with
+  | "bind" :: toks => handleBind toks
   | "build" :: banned :: toks =>
     let bans : List Kind := if banned == "-" then [] else (banned.splitOn ",").filterMap fun s => s.toNat?.bind fun i => Kind.all[i]?
     match parseForest 0 toks with
